@@ -11,6 +11,7 @@ import (
 	"os"
 	"path/filepath"
 	"runtime"
+	"runtime/debug"
 	"sort"
 	"sync"
 	"sync/atomic"
@@ -337,7 +338,7 @@ func ParFor(n int64, stop func() bool, f func(i int64)) int64 {
 					hi = n
 				}
 				for i := lo; i < hi; i++ {
-					f(i)
+					safeJob(f, i)
 				}
 				atomic.AddInt64(&done, hi-lo)
 			}
@@ -345,6 +346,24 @@ func ParFor(n int64, stop func() bool, f func(i int64)) int64 {
 	}
 	wg.Wait()
 	return done
+}
+
+// OnJobPanic, when set, receives panics raised inside a ParFor job (the harness tripping over
+// something the library returned, e.g. a nil where the property demands a value): the check
+// reports them as violations instead of crashing without a verdict.
+var OnJobPanic func(i int64, p any, stack string)
+
+func safeJob(f func(i int64), i int64) {
+	if OnJobPanic == nil {
+		f(i)
+		return
+	}
+	defer func() {
+		if r := recover(); r != nil {
+			OnJobPanic(i, r, string(debug.Stack()))
+		}
+	}()
+	f(i)
 }
 
 // Catch runs f and converts a panic into an error string (with no stack; the replay
